@@ -240,15 +240,18 @@ OBLIGATIONS['C08'] = [
     ('vprelude::lemma_map_elem_decreases', 'lemma'), ('vprelude::lemma_arr_elem_decreases', 'lemma'),
 ]
 # bounded stand-ins run on the real crate (never counted as discharged): property -> replay subcommands
-MEASUREMENTS = {'C01': ['c01-measure']}
+# bounded checks on the real crate that run with EVERY check of the property (never counted as proved): the C01 stack/time
+# measurement, and the "refused with the documented panic" clauses - a necessity copy shows that SOME call without the
+# precondition panics, not that EVERY such call does; the probes call each refused case
+MEASUREMENTS = {'C01': ['c01-measure'], 'C19': ['probe builders'], 'C03': ['probe structures'], 'C04': ['probe structures'], 'C05': ['probe structures']}
 
 # probe sets of the replay crate (concrete inputs on the real crate vs reference implementations written from the RFCs).
 # Used ONLY to look for a failing input after the verifier flagged the property (failed obligation, or undecidable on a
 # changed tree), and as a labelled bounded extra in the thorough tier.  They do not decide anything on the unchanged tree.
 PROBES = {
     'C02': ['structures', 'headers', 'roundtrip'], 'C03': ['structures'], 'C04': ['structures'], 'C05': ['structures'], 'C06': ['structures'],
-    'C08': ['headers'], 'C12': ['headers', 'keys', 'claims'], 'C09': ['framing', 'headers'], 'C13': ['framing'], 'C14': ['framing'],
-    'C15': ['integers'], 'C16': ['order'], 'C20': ['order'],
+    'C08': ['headers'], 'C12': ['headers', 'keys', 'claims'], 'C09': ['framing', 'headers', 'roundtrip'], 'C13': ['framing'], 'C14': ['framing'],
+    'C15': ['integers'], 'C16': ['order'], 'C17': ['claims', 'keys', 'headers'], 'C20': ['order'],
     'C10': ['keys'], 'C18': ['claims', 'integers'], 'C19': ['builders'], 'C07': ['roundtrip'], 'C11': ['roundtrip'], 'C01': ['roundtrip', 'framing', 'headers', 'keys', 'claims', 'integers', 'structures', 'builders', 'order'],
 }
 
@@ -262,6 +265,9 @@ OBLIGATIONS['C02'] += [
 ]
 OBLIGATIONS['C03'] += [
     ('sign::*::verify_*', 'body'), ('sign::*Builder::*create*signature', 'body'), ('sign::*Builder::*add_*signature', 'body'),
+]
+OBLIGATIONS['C17'] += [     # the decoders that classify labels through the registries
+    ('cwt::ClaimsSet::from_cbor_value', 'body'), ('header::Header::from_cbor_value_nested', 'body'), ('key::CoseKey::from_cbor_value', 'body'),
 ]
 OBLIGATIONS['C06'] += [     # the wire hop between creation and verification
     ('sign::*::to_cbor_value', 'body'), ('sign::*::from_cbor_value', 'body'), ('mac::*::to_cbor_value', 'body'), ('mac::*::from_cbor_value', 'body'),
